@@ -143,8 +143,15 @@ func asL(v interface{}) []interface{} {
 	return l
 }
 func asF(v interface{}) float64 {
-	f, _ := v.(float64)
-	return f
+	switch x := v.(type) {
+	case float64:
+		return x
+	case int:
+		return float64(x)
+	case int64:
+		return float64(x)
+	}
+	return 0
 }
 func asS(v interface{}) string {
 	s, _ := v.(string)
